@@ -200,6 +200,12 @@ def version_vectors(rng, n):
     for i, (x, y, z) in enumerate(cases):
         out.append({"id": "ver-%d" % i, "seid": "1", "steps": [{"fn": "version", "tree": NOTREE, "period": 0, "version": "%d.%d.%d" % (x, y, z)}],
                     "meta": {"seidle": [1, 0, 0, 0, 0, 0, 0, 0], "vers": [[x, y, z]], "st": {}, "order": ""}})
+    # pre-releases order just below their version, build metadata does not count
+    for i, (txt, v) in enumerate([("0.9.5-rc1", [0, 9, 5, 1]), ("0.9.5-beta.2", [0, 9, 5, 1]), ("0.9.6-rc1", [0, 9, 6, 1]), ("0.9.14-alpha", [0, 9, 14, 1]),
+                                  ("0.10.0-rc1", [0, 10, 0, 1]), ("0.10.1-rc1", [0, 10, 1, 1]), ("0.9.4-rc9", [0, 9, 4, 1]), ("1.0.0-rc1", [1, 0, 0, 1]),
+                                  ("0.9.5+build7", [0, 9, 5]), ("0.9.7+b1", [0, 9, 7]), ("0.10.0+b", [0, 10, 0]), ("0.9.5-alpha+build7", [0, 9, 5, 1])]):
+        out.append({"id": "verpre-%d" % i, "seid": "1", "steps": [{"fn": "version", "tree": NOTREE, "period": 0, "version": txt}],
+                    "meta": {"seidle": [1, 0, 0, 0, 0, 0, 0, 0], "vers": [v], "st": {}, "order": ""}})
     for i, bad in enumerate(["", "abc", "0.9.x", "v", "0..5"]):
         out.append({"id": "verbad-%d" % i, "seid": "1", "steps": [{"fn": "version", "tree": NOTREE, "period": 0, "version": bad}],
                     "meta": {"seidle": [1, 0, 0, 0, 0, 0, 0, 0], "vers": [[]], "st": {}, "order": ""}})
